@@ -140,7 +140,7 @@ def main(argv=None):
             k = match_known(known, base)
             if confirmed is not True and it.mode == "F":
                 # the counter-model did not reproduce: look for a failing input of the real function natively
-                w = native_search(mod, it.func, searched, tier, seed)
+                w = native_search(mod, it.func, searched, tier, seed, it.name)
                 if w is not None:
                     rep["native_search_witness"] = w
                     with open(path, "w") as f:
@@ -156,7 +156,7 @@ def main(argv=None):
                 violations.append(it)
         elif it.verdict in ("unknown", "error"):
             # undecided by the verifier: a failing input found natively still is a violation of the contract
-            w = native_search(mod, it.func, searched, tier, seed) if it.func else None
+            w = native_search(mod, it.func, searched, tier, seed, it.name) if it.func else None
             if w is not None:
                 rep = {"property": pid, "obligation": it.name, "backend": it.backend, "verifier_output": it.detail[:1500],
                        "native_search_witness": w,
@@ -206,18 +206,19 @@ def main(argv=None):
     return status
 
 
-def native_search(mod, func, cache, tier, seed):
+def native_search(mod, func, cache, tier, seed, obligation=""):
     """Bounded search for an input on which the real function violates its contract natively (used only to
     attach a failing input to an obligation that did not verify; never to discharge one)."""
     if not func or not hasattr(mod, "search"):
         return None
-    if func not in cache:
+    key = (func, re.sub(r"#\d+$", "", obligation))
+    if key not in cache:
         try:
-            cache[func] = mod.search(func, tier, seed)
+            cache[key] = mod.search(func, tier, seed, key[1])
         except Exception:
-            cache[func] = None
+            cache[key] = None
             traceback.print_exc()
-    return cache[func]
+    return cache[key]
 
 
 def safe(name: str) -> str:
